@@ -518,6 +518,11 @@ class ConnectModel(Unit):
             if E.fork(2, 'stale-packets-left-in-queue'):
                 # the previous connection ended with packets still queued (immediate disconnect, late write_packet)
                 conn.__dict__['_outgoing_packet_queue'] = deque(['stale-1', 'stale-2'])
+            if E.fork(2, 'earlier-connection-negotiated-compression'):
+                # whatever way the earlier connection ended (server disconnect during login, error, reconnect from a handler
+                # without a disconnect() in between), its framing mode must not leak into the new one
+                conn.options.compression_enabled = True
+                conn.options.compression_threshold = 256
         I.override(raw(Connection, '_write_packet'), lambda I_, c, p: c.socket.send(b'frame of %s' % str(p).encode()), kind='contract')
 
         def getaddrinfo(I_, host, port, *a):
@@ -549,7 +554,8 @@ class ConnectModel(Unit):
             E.check('connect.success', outcome == 'returned' and d['connected'] is True and isinstance(d['socket'], GSock) and
                     isinstance(d['file_object'], GFile) and len(d['_outgoing_packet_queue']) == 0 and
                     d['options'].compression_enabled is False and d['options'].compression_threshold == -1,
-                    note='fresh empty queue, socket and file object, compression reset, connected = True')
+                    note='fresh empty queue, socket and file object, connected = True, and plain framing whatever the earlier '
+                         'connection on this object had negotiated (the handshake of the new login goes out uncompressed)')
             E.check('connect.prefers-ipv4', ('socket', socket_mod.AF_INET) in log)
         else:
             E.check('connect.failure-propagates', isinstance(outcome, OSError), note='%r' % (outcome,))
@@ -567,13 +573,45 @@ class ConnectModel(Unit):
         return None
 
     def replay(self, model, label):
+        if label == 'connect.success':
+            return replay_connect_plain()
         rp = replay_lifecycle(label)
         return rp if rp['confirmed'] else replay_stale_queue()
 
     def bounded(self, rng, tier):
         rp = replay_stale_queue()
-        return dict(name='C16.connect.stale-queue-live', evaluations=1, bound='one live loopback scenario',
-                    failures=[dict(call=rp['call'], observed=rp['observed'], witness='stale-queue')] if rp['confirmed'] else [])
+        rp2 = replay_connect_plain()
+        return dict(name='C16.connect.live', evaluations=2, bound='two live loopback scenarios (stale queue; reconnect after a '
+                    'connection that had negotiated compression)',
+                    failures=[dict(call=r['call'], observed=r['observed'], witness=w)
+                              for r, w in ((rp, 'stale-queue'), (rp2, 'reconnect-framing')) if r['confirmed']])
+
+
+def replay_connect_plain():
+    """Live: _connect() on a Connection whose earlier login had switched compression on (and which was not disconnect()ed in
+    between, as when an exception handler reconnects after a login disconnect): the new connection starts with plain framing."""
+    import socket
+    srv = socket.socket()
+    srv.bind(('127.0.0.1', 0))
+    srv.listen(2)
+    bad = None
+    try:
+        c = Connection('127.0.0.1', srv.getsockname()[1], username='u', allowed_versions={757}, handle_exception=False)
+        c.options.compression_enabled, c.options.compression_threshold = True, 256
+        k, v = native_call(c._connect, timeout=5.0)
+        if k != 'ok':
+            bad = '_connect: %s %r' % (k, v)
+        elif c.options.compression_enabled is not False or c.options.compression_threshold != -1:
+            bad = ('the new connection starts with compression_enabled=%r, threshold=%r: its handshake and login start go out in '
+                   'compressed framing, which no server expects' % (c.options.compression_enabled, c.options.compression_threshold))
+        try:
+            c.disconnect(immediate=True)
+        except Exception:       # noqa
+            pass
+    finally:
+        srv.close()
+    return dict(confirmed=bad is not None, call='_connect() on a Connection whose earlier login had enabled compression (threshold 256)',
+                observed=bad or 'conforms')
 
 
 def units(tier):
@@ -582,4 +620,9 @@ def units(tier):
     # after the login encryption step connection.socket / file_object are cipher wrappers: disconnect() reaches the real
     # transport only if their close / shutdown delegate
     wd.prop, wd.name = 'C16', 'C16.close-through-cipher-wrappers'
-    return [Lifecycle(), ConnectModel(), wd]
+    from . import c14
+    tw = c14.ThreadWrapper()
+    # "always reusable" and "one active thread" rest on run(): wait for the predecessor, install itself and clear the successor
+    # slot whether or not the predecessor is still alive, clear the thread slot on every exit
+    tw.prop, tw.name = 'C16', 'C16.hand-over'
+    return [Lifecycle(), ConnectModel(), wd, tw]
